@@ -376,7 +376,9 @@ static int _pcp_sendfile (struct pcp_filename *pf, struct pcp_client *pcp)
 {
 	char *output_filename = NULL;
 
-	if (strcmp(pf->filename, EXIT_SUBDIR_FILENAME) == 0) {
+	/* a file the user names like the sentinel is a file */
+	if (!pf->file_specified_by_user
+	    && strcmp(pf->filename, EXIT_SUBDIR_FILENAME) == 0) {
 		if (pcp_sendstr(pcp->outfd, EXIT_SUBDIR_FLAG, pcp->host) < 0)
 			errx("%p: failed to send exit subdir flag\n");
 		if (pcp_response(pcp->infd, pcp->host) < 0)
